@@ -217,6 +217,10 @@ def run_unit(unit, seed=None, rlimit=None, extra_args=None, use_cache=True, repo
                 if 1 <= ln <= len(res.lines):
                     for m in TAG_RE.finditer(res.lines[ln - 1]):
                         tags.update(t.strip() for t in m.group(1).split(",") if t.strip())
+        if not tags and ("could not prove termination" in d["message"] or "decreases not satisfied" in d["message"]):
+            # Verus reports a termination failure at the recursive call only: the obligation is the one
+            # stated by the `decreases` clause of the enclosing function, so it carries that clause's tags
+            tags.update(decreases_tags(res.lines, min(unit_lines) if unit_lines else 0))
         d["tags"] = sorted(tags)
         d["unit_lines"] = unit_lines
         prim = [s for s in d["spans"] if s[4] and s[3].endswith("unit.rs")]
@@ -233,6 +237,31 @@ def run_unit(unit, seed=None, rlimit=None, extra_args=None, use_cache=True, repo
         d["src_sites"] = sorted(set(filter(None, (res.src_of(ln) for ln in unit_lines))))
         d["callee_external"] = [s[3] for s in d["spans"] if not s[3].endswith("unit.rs")]
     return res
+
+
+FN_HDR_RE = re.compile(r"^\s*(pub(\([a-z]+\))?\s+)?((open|closed|proof|spec|exec|broadcast|async|const|unsafe)\s+)*fn\s+\w+")
+
+
+def decreases_tags(lines, ln):
+    """tags on the `decreases` clause of the function enclosing unit line `ln` (1-based)"""
+    i = ln - 1
+    while i >= 0 and not FN_HDR_RE.match(lines[i]):
+        i -= 1
+    if i < 0:
+        return set()
+    out, inside = set(), False
+    for j in range(i, min(ln, len(lines))):
+        t = lines[j].strip()
+        if t == "{":
+            break
+        if t.startswith("decreases"):
+            inside = True
+        elif re.match(r"^(requires|ensures|recommends|returns|opens_invariants|no_unwind)\b", t):
+            inside = False
+        if inside:
+            for m in TAG_RE.finditer(lines[j]):
+                out.update(x.strip() for x in m.group(1).split(",") if x.strip())
+    return out
 
 
 def run_unit_portfolio(unit, seeds=(11, 23, 37), **kw):
